@@ -71,16 +71,16 @@ impl TokCase {
 /// what the implementation returned, canonicalised
 #[derive(Clone, Debug, PartialEq)]
 pub struct Seen {
-    access: String,
-    tt_kind: u8,
-    tt_ref: String,
-    expires: Option<u64>,
-    refresh: Option<String>,
-    scopes: Option<Vec<String>>,
-    ext: Option<(String, Option<u64>)>,
+    pub(crate) access: String,
+    pub(crate) tt_kind: u8,
+    pub(crate) tt_ref: String,
+    pub(crate) expires: Option<u64>,
+    pub(crate) refresh: Option<String>,
+    pub(crate) scopes: Option<Vec<String>>,
+    pub(crate) ext: Option<(String, Option<u64>)>,
 }
 
-fn seen_of<EF: ExtraTokenFields>(t: &StandardTokenResponse<EF, BasicTokenType>, ext: Option<(String, Option<u64>)>) -> Seen {
+pub(crate) fn seen_of<EF: ExtraTokenFields>(t: &StandardTokenResponse<EF, BasicTokenType>, ext: Option<(String, Option<u64>)>) -> Seen {
     let (k, r) = match t.token_type() {
         BasicTokenType::Bearer => (0, "bearer".to_string()),
         BasicTokenType::Mac => (1, "mac".to_string()),
@@ -105,7 +105,7 @@ fn seen_of<EF: ExtraTokenFields>(t: &StandardTokenResponse<EF, BasicTokenType>, 
     }
 }
 
-fn show(s: &Option<Seen>) -> String {
+pub(crate) fn show(s: &Option<Seen>) -> String {
     match s {
         None => "e".into(),
         Some(s) => {
@@ -130,11 +130,11 @@ fn show(s: &Option<Seen>) -> String {
     }
 }
 
-fn random_case(r: &mut Rng, s: &str) -> String {
+pub(crate) fn random_case(r: &mut Rng, s: &str) -> String {
     s.chars().map(|c| if r.chance(1, 2) { c.to_ascii_uppercase() } else { c.to_ascii_lowercase() }).collect()
 }
 
-const EXPIRES: &[u64] = &[
+pub(crate) const EXPIRES: &[u64] = &[
     0,
     1,
     59,
@@ -152,12 +152,12 @@ const EXPIRES: &[u64] = &[
     9999999999999999999,
     10000000000000000000,
 ];
-const TYPES: &[&str] = &[
+pub(crate) const TYPES: &[&str] = &[
     "DPoP", "magic", "İX", "ΑΣ", "Bearer ", " bearer", "bearer\0", "", "ＢＥＡＲＥＲ", "bearerx", "bear", "macx", "ma", "N_A", "MAC ", "ǅ", "ẞ", "BEARER\u{0301}", "K",
     "pop", "Mac-1",
 ];
 
-fn scope_string(r: &mut Rng) -> String {
+pub(crate) fn scope_string(r: &mut Rng) -> String {
     match r.below(12) {
         0 => String::new(),
         1 => r.pick(&["a  b", " a", "a ", " ", "  ", "a\tb", "a\u{a0}b", "a\u{2003}b c", "a\nb", "read write", "a\u{3000}b", "a\r\nb c"]).to_string(),
@@ -228,7 +228,7 @@ fn conforming(r: &mut Rng, variant: u8) -> Vec<(String, JV)> {
     ms
 }
 
-fn base_case(r: &mut Rng) -> TokCase {
+pub(crate) fn base_case(r: &mut Rng) -> TokCase {
     let variant = r.below(2) as u8;
     let doc = JV::Obj(conforming(r, variant));
     TokCase {
